@@ -195,7 +195,9 @@ class CoherenceAnalyzer(BaseAnalyzer):
                 this_phase = self.phase[i, j]
                 #If requested, unwrap the phases:
                 if self._unwrap_phases:
-                    this_phase = tsu.unwrap_phases(this_phase)
+                    # unwrap_phases works in place: give it a copy, so that
+                    # the cached `phase` is left as it was handed out
+                    this_phase = tsu.unwrap_phases(np.copy(this_phase))
 
                 delay[i, j] = this_phase / (2 * np.pi * self.frequencies)
 
